@@ -26,28 +26,29 @@ import (
 )
 
 type params struct {
-	W0, M    uint64
-	N        int    // "go" answers of the pacer before it says stop
-	Cause    string // pacer | stop1 | stop2 | stop1x2 | tgterr | duration
-	ErrAt    int    // tgterr: index of the failing targeter call
-	Slow     bool   // the consumer waits for the environment before every receive
-	DNS      bool   // attacker built with DNSCaching(ttl>0): refresh goroutine must exit
-	Mode     vsched.ClockMode
-	Adv      bool          // C04: adversarial pacer (waits / stalls chosen by the explorer)
-	Du       time.Duration // attack duration (0 = none)
-	Wait     time.Duration // fixed pacer wait (duration scenarios)
-	ClockHit bool          // targeter / transport read the (hooked) clock
-	Trunc    bool          // attacker built with MaxBody(1): the rest of the 2-byte body is only drained
-	MaxFirst bool          // options applied as MaxWorkers(M), Workers(W0) instead of Workers, MaxWorkers
-	Huge     bool          // adversarial pacer may answer with a wait of MaxInt64 ("hold until stopped")
-	FailRT   bool          // every exchange fails in the transport; the client has a 1ns Timeout configured
-	NoTgts   bool          // the failing targeter call returns vegeta.ErrNoTargets (a lazy target stream that ran dry)
-	SlowTail bool          // the last byte of a response body only arrives after the environment lets it
-	RealTr   int           // >0: the client uses a real *http.Transport (the fake transport is registered for the scheme "fake") with MaxConnections(RealTr)
-	Second   bool          // a second Attack call on the same Attacker while the first is running
-	SecondN  int           // hits the second attack releases (0: its pacer stops at once)
-	ZeroRate bool          // the pacer's Rate() is 0 (as the unlimited-rate pacer's is) and the client has a timeout
-	JSONTgt  bool          // Cause tgterr: the targets come from the real (instrumented) lazy JSON targeter over ErrAt lines; it runs dry at call ErrAt and stays dry
+	W0, M     uint64
+	N         int    // "go" answers of the pacer before it says stop
+	Cause     string // pacer | stop1 | stop2 | stop1x2 | tgterr | duration
+	ErrAt     int    // tgterr: index of the failing targeter call
+	Slow      bool   // the consumer waits for the environment before every receive
+	DNS       bool   // attacker built with DNSCaching(ttl>0): refresh goroutine must exit
+	Mode      vsched.ClockMode
+	Adv       bool          // C04: adversarial pacer (waits / stalls chosen by the explorer)
+	Du        time.Duration // attack duration (0 = none)
+	Wait      time.Duration // fixed pacer wait (duration scenarios)
+	ClockHit  bool          // targeter / transport read the (hooked) clock
+	Trunc     bool          // attacker built with MaxBody(1): the rest of the 2-byte body is only drained
+	MaxFirst  bool          // options applied as MaxWorkers(M), Workers(W0) instead of Workers, MaxWorkers
+	Huge      bool          // adversarial pacer may answer with a wait of MaxInt64 ("hold until stopped")
+	FailRT    bool          // every exchange fails in the transport; the client has a 1ns Timeout configured
+	NoTgts    bool          // the failing targeter call returns vegeta.ErrNoTargets (a lazy target stream that ran dry)
+	SlowTail  bool          // the last byte of a response body only arrives after the environment lets it
+	RealTr    int           // >0: the client uses a real *http.Transport (the fake transport is registered for the scheme "fake") with MaxConnections(RealTr)
+	Second    bool          // a second Attack call on the same Attacker while the first is running
+	SecondN   int           // hits the second attack releases (0: its pacer stops at once)
+	RealPacer int           // >0: waits come from a real vegeta pacer (realPacers[RealPacer-1]); the harness pacer only counts and stops after N
+	ZeroRate  bool          // the pacer's Rate() is 0 (as the unlimited-rate pacer's is) and the client has a timeout
+	JSONTgt   bool          // Cause tgterr: the targets come from the real (instrumented) lazy JSON targeter over ErrAt lines; it runs dry at call ErrAt and stays dry
 }
 
 func (p params) name() string {
@@ -93,6 +94,9 @@ func (p params) name() string {
 	}
 	if p.ZeroRate {
 		s += ",rate()=0,client-timeout"
+	}
+	if p.RealPacer > 0 {
+		s += ",pacer=" + realPacerNames[p.RealPacer-1]
 	}
 	if p.Second {
 		s += ",two-attacks"
@@ -177,6 +181,16 @@ type world struct {
 
 type pacer struct{ w *world }
 
+// real pacers slower than one hit per second, and one whose rate changes, followed by the real attack loop in virtual time
+var realPacers = []vegeta.Pacer{
+	vegeta.ConstantPacer{Freq: 1, Per: 4 * time.Second},
+	vegeta.ConstantPacer{Freq: 3, Per: 10 * time.Second},
+	vegeta.LinearPacer{StartAt: vegeta.Rate{Freq: 1, Per: 2 * time.Second}, Slope: 0.5},
+	vegeta.SinePacer{Period: time.Minute, Mean: vegeta.Rate{Freq: 30, Per: time.Minute}, Amp: vegeta.Rate{Freq: 15, Per: time.Minute}},
+	vegeta.ConstantPacer{Freq: 1000, Per: time.Second},
+}
+var realPacerNames = []string{"constant-1/4s", "constant-3/10s", "linear-from-1/2s", "sine-30/min", "constant-1000/s"}
+
 var waitAlphabet = []time.Duration{0, 5, -3}
 var stallAlphabet = []time.Duration{0, 3}
 
@@ -214,6 +228,8 @@ func (pc pacer) Pace(elapsed time.Duration, hits uint64) (time.Duration, bool) {
 	default:
 		if goes >= w.p.N {
 			rec.Stop = true
+		} else if w.p.RealPacer > 0 {
+			rec.Wait, rec.Stop = realPacers[w.p.RealPacer-1].Pace(elapsed, hits)
 		} else {
 			rec.Wait = w.p.Wait
 		}
@@ -632,7 +648,11 @@ func (w *world) end(s *vsched.Sched, r *vsched.Result) (string, string) {
 		sort.Slice(st, func(i, j int) bool { return st[i] < st[j] })
 		for k, t := range st {
 			if k >= len(rel) || t < rel[k] {
-				if v := fmt.Sprintf("C04: hit #%d started at t=%d before the pacer released it (release times %v, start times %v)", k, t, rel, st); w.own(v) {
+				pfx := "C04"
+				if w.id == "C01" { // the premise of C01 - the attacker sleeps as long as it is told - checked on the real loop
+					pfx = "C01"
+				}
+				if v := fmt.Sprintf(pfx+": hit #%d started at t=%d before the pacer released it (release times %v, start times %v)", k, t, rel, st); w.own(v) {
 					return v, outcome
 				}
 			}
@@ -974,6 +994,21 @@ func c02Plans() []plan {
 }
 
 func TestC02(t *testing.T) { runPlans(t, "C02", c02Plans()) }
+
+// C01, part b: the real attack loop follows real pacers exactly (no hit before the wait the pacer asked for is over).
+func c01Plans() []plan {
+	var ps []plan
+	dl := deadline(ev.Pick(150*time.Second, 40*time.Minute))
+	for k := range realPacers {
+		for _, wm := range [][2]uint64{{1, 1}, {1, 2}} {
+			p := params{W0: wm[0], M: wm[1], N: ev.Pick(3, 4), Cause: "pacer", RealPacer: k + 1, Mode: vsched.ClockStepped, ClockHit: true}
+			ps = append(ps, plan{p, vsched.Config{Bound: ev.Pick(2, -1), Cache: true, Deadline: dl, Iterate: true}})
+		}
+	}
+	return ps
+}
+
+func TestC01(t *testing.T) { runPlans(t, "C01", c01Plans()) }
 
 func c03Plans() []plan {
 	var ps []plan
